@@ -295,7 +295,10 @@ pub fn gen_random(seed: u64, idx: u64) -> Plan {
                 c.steps.push(Step::Send { data: Blob(sr.bytes[..cut].to_vec()), completes: None });
                 match r.below(3) {
                     0 => {
-                        c.steps.push(Step::Sleep { ms: r.range(1, 3_000) });
+                        // a pause of up to three seconds, or of more than
+                        // half a minute: a slow upload is still an upload
+                        let pause = if r.chance(1, 3) { r.range(31_000, 50_000) } else { r.range(1, 3_000) };
+                        c.steps.push(Step::Sleep { ms: pause });
                         c.steps.push(Step::Send { data: Blob(sr.bytes[cut..].to_vec()), completes: Some(j) });
                     }
                     1 => {
